@@ -2,7 +2,8 @@
 
 usage: c18_impl.py templates                 -> one JSON object: payload templates of the library's message classes
        c18_impl.py run <tmpdir>  < cases     -> one JSON line per case
-       c18_impl.py app <tmpdir>  < cases     -> same, through applications/p1_extract.py (output bytes, .p1i, exit code)
+       c18_impl.py app <tmpdir>  < cases     -> same, through `python -m ...applications.p1_extract` (output bytes, .p1i, exit code)
+       c18_impl.py appseq <tmpdir> < cases   -> sequences of p1_extract.main() runs (in-process) into one output location
 
 A case is {"id": str, "hex": file bytes, "frames": [[off, len], ...]}; `frames` are the frames of the SPEC scan, used only
 to compute the P1-time table (frame bytes -> int seconds | null) with the library's own payload classes, the way
@@ -139,6 +140,74 @@ def run_case(c, tmp):
         shutil.copyfile(o1, i3)
         r = attempt(lambda: canon_ret(extract_fusion_engine_log(i3, o3, return_counts=True)))
         res['x3'] = {'ret': r, 'out': rd(o3), 'idx': rd(o3[:-6] + '.p1i')}
+    # 5. extraction over an output location that already exists: either files put there beforehand, or an earlier
+    #    extraction of another input (with or without index) into the same path
+    ov = c.get('over')
+    if ov is not None:
+        o5 = os.path.join(d, 'o5.p1log')
+        first = None
+        if ov['kind'] == 'files':
+            with open(o5, 'wb') as f:
+                f.write(bytes.fromhex(ov['out']))
+            if ov.get('idx') is not None:
+                with open(o5[:-6] + '.p1i', 'wb') as f:
+                    f.write(bytes.fromhex(ov['idx']))
+        else:
+            a = os.path.join(d, 'first.bin')
+            with open(a, 'wb') as f:
+                f.write(bytes.fromhex(ov['hex']))
+            first = attempt(lambda: canon_ret(extract_fusion_engine_log(a, o5, save_index=ov['save_index'])))
+        prior = {'out': rd(o5), 'idx': rd(o5[:-6] + '.p1i')}
+        r = attempt(lambda: canon_ret(extract_fusion_engine_log(inp, o5, return_counts=True, save_index=ov.get('second_save_index', True))))
+        res['over'] = {'first': first, 'prior': prior, 'ret': r, 'out': rd(o5), 'idx': rd(o5[:-6] + '.p1i')}
+    shutil.rmtree(d, ignore_errors=True)
+    return res
+
+
+_APP_OUT = None
+
+
+def call_main(argv):
+    """applications/p1_extract.py main() in-process with sys.argv patched; returns None | exit code | exception"""
+    global _APP_OUT
+    import contextlib
+    from fusion_engine_client.applications import p1_extract
+    if _APP_OUT is None:
+        _APP_OUT = io.StringIO()       # main() installs a logging handler on sys.stdout once: keep it off the protocol stream
+    saved = sys.argv
+    sys.argv = ['p1_extract'] + argv
+    try:
+        with contextlib.redirect_stdout(_APP_OUT), contextlib.redirect_stderr(_APP_OUT):
+            p1_extract.main()
+        return {'ok': None}
+    except SystemExit as e:
+        return {'ok': e.code}
+    except BaseException as e:
+        return {'exc': type(e).__name__, 'msg': str(e)[:200], 'tb': traceback.format_exc()[-600:]}
+    finally:
+        sys.argv = saved
+        _APP_OUT.seek(0); _APP_OUT.truncate()
+
+
+def appseq_case(c, tmp):
+    """a sequence of p1_extract runs (main() in-process) of several inputs lying in one directory into the SAME output
+    (-o <dir> -p out). All inputs are written before the first run, as captures recorded side by side are."""
+    d = os.path.join(tmp, 's' + c['id'])
+    outdir = os.path.join(d, 'extracted')
+    os.makedirs(outdir)
+    paths = []
+    res = {'id': c['id'], 'steps': []}
+    for i, st in enumerate(c['steps']):
+        data = bytes.fromhex(st['hex'])
+        pth = os.path.join(d, st['name'])
+        with open(pth, 'wb') as f:
+            f.write(data)
+        paths.append(pth)
+    for pth, st in zip(paths, c['steps']):
+        data = bytes.fromhex(st['hex'])
+        r = call_main(['-o', outdir, '-p', 'out', pth])
+        res['steps'].append({'ret': r, 'out': rd(os.path.join(outdir, 'out.p1log')), 'idx': rd(os.path.join(outdir, 'out.p1i')),
+                             'p1': [[data[o:o + n].hex(), p1_of(data[o:o + n])] for o, n in st['frames']]})
     shutil.rmtree(d, ignore_errors=True)
     return res
 
@@ -169,7 +238,7 @@ def main():
         templates()
         return
     tmp = sys.argv[2]
-    fn = run_case if mode == 'run' else app_case
+    fn = {'run': run_case, 'app': app_case, 'appseq': appseq_case}[mode]
     for line in sys.stdin:
         line = line.strip()
         if not line:
